@@ -44,6 +44,7 @@ NODATA = -99999.0
 TOL = 1e-9
 
 AGGS = [("count", co_count), ("sum", co_sum), ("min", co_min), ("max", co_max), ("avg", co_avg), ("median", co_median)]
+_AGGS = AGGS
 AGG_FN = dict(AGGS)
 RES = [(1, 1), (2, 1), (1, 2), (1.5, 0.7), (4, 4), (5, 5)]
 MARGINS = [0, 0.1, 0.25, 0.5]
@@ -59,6 +60,7 @@ SPLITS3 = [(3,), (2, 1), (1, 1, 1)]
 SPLITS4 = [(2, 2), (1, 3)]
 
 OBLIGATIONS = {
+    "aggregates_in_reversed_order": "the same collection summarised with the aggregates requested in the reversed order (median first)",
     "cell_with_two_values": "a cell collects >= 2 non-NaN values",
     "cell_with_nan_and_value": "a cell collects a NaN and a non-NaN value",
     "first_value_nan": "a cell whose first collected value is NaN and that also holds a non-NaN value",
@@ -313,10 +315,15 @@ def _oblige_grid(G, margin, ctx):
 # ---------------------------------------------------------------------------
 # the checks (shared by the enumeration and by --replay)
 # ---------------------------------------------------------------------------
-def check_summ(variant, tracks, res, margin, ctx):
-    """summarize() of one collection on one grid with the six aggregates."""
+def check_summ(variant, tracks, res, margin, ctx, order="listed"):
+    """summarize() of one collection on one grid with the six aggregates, requested in the listed or in the reversed
+    order (between the two, every aggregate is computed before every other one once: an aggregate that consumed or
+    altered the values collected in a cell would spoil the ones computed after it)."""
     case = {"op": "summ", "variant": variant, "tracks": [[list(f) for f in t] for t in tracks],
-            "res": list(res), "margin": margin}
+            "res": list(res), "margin": margin, "order": order}
+    AGGS = list(reversed(_AGGS)) if order == "reversed" else list(_AGGS)
+    if order == "reversed":
+        ctx.oblige("aggregates_in_reversed_order")
     resolution = _res(variant, res)
     col = _collection(variant, tracks)
     fixes = []
@@ -452,7 +459,8 @@ def check_cell(variant, res, margin, p, ctx):
 
 def replay(case, ctx):
     if case["op"] == "summ":
-        check_summ(case["variant"], [[tuple(f) for f in t] for t in case["tracks"]], tuple(case["res"]), case["margin"], ctx)
+        check_summ(case["variant"], [[tuple(f) for f in t] for t in case["tracks"]], tuple(case["res"]), case["margin"], ctx,
+                   case.get("order", "listed"))
     elif case["op"] == "cell":
         check_cell(case["variant"], tuple(case["res"]), case["margin"], tuple(case["p"]), ctx)
 
@@ -542,6 +550,8 @@ def run_shard(shard, ctx):
         full = [[tuple(f) for f in DIAG]] + tracks
         nt = check_summ(v, full, res, margin, ctx)
         ctx.case(bool(nt))
+        nt2 = check_summ(v, full, res, margin, ctx, "reversed")
+        ctx.case(bool(nt2))
         if first and nt:
             ctx.sample({"tracks": full, "res": list(res), "margin": margin, "family": shard["fam"]})
             first = False
